@@ -54,6 +54,7 @@ import (
 
 	"github.com/ARM-software/golang-utils/utils/logs"
 	"github.com/ARM-software/golang-utils/utils/subprocess"
+	commandUtils "github.com/ARM-software/golang-utils/utils/subprocess/command"
 	"github.com/ARM-software/golang-utils/utils/subprocess/supervisor"
 	deadlock "github.com/sasha-s/go-deadlock"
 
@@ -160,9 +161,28 @@ type Cell struct {
 	Start   string `json:"start"`
 	Stop    string `json:"stop"`
 	Instant string `json:"instant"`
+	// As: "" = the command is run directly; "env" = through a command translator (SetupAs with
+	// NewCommandAsDifferentUser("env"): `env <command>` execs the command, the way gosu / sudo / nice are used)
+	As string `json:"as,omitempty"`
 }
 
-func (c Cell) String() string { return c.Shape + "|" + c.Start + "|" + c.Stop + "|" + c.Instant }
+func (c Cell) String() string {
+	s := c.Shape + "|" + c.Start + "|" + c.Stop + "|" + c.Instant
+	if c.As != "" {
+		s += "|as=" + c.As
+	}
+	return s
+}
+
+// newSubprocess creates the command of a cell, directly or through the translator.
+func newSubprocess(ctx context.Context, c Cell, loggers logs.Loggers, binPath string, args ...string) (*subprocess.Subprocess, error) {
+	if c.As == "" {
+		return subprocess.New(ctx, loggers, "", "", "", binPath, args...)
+	}
+	p := new(subprocess.Subprocess)
+	err := p.SetupAs(ctx, loggers, "", "", "", commandUtils.NewCommandAsDifferentUser(c.As), binPath, args...)
+	return p, err
+}
 
 func grid(thorough bool) []Cell {
 	var cells []Cell
@@ -173,8 +193,18 @@ func grid(thorough bool) []Cell {
 			}
 			for _, sp := range stopsOf(st) {
 				for _, in := range instantsOf(s, thorough) {
-					cells = append(cells, Cell{s.Name, st, sp, in})
+					cells = append(cells, Cell{s.Name, st, sp, in, ""})
 				}
+			}
+		}
+	}
+	// the same command run through a translator: trees whose descendants hold the output pipes or not, every way of stopping
+	for _, name := range []string{"fan:3", "bg-holder", "chain:2"} {
+		s, _ := shapeByName(name)
+		for _, st := range starts {
+			for _, sp := range stopsOf(st) {
+				ins := instantsOf(s, thorough)
+				cells = append(cells, Cell{s.Name, st, sp, ins[len(ins)-1], "env"})
 			}
 		}
 	}
@@ -538,7 +568,7 @@ func runCell(c Cell) (res Result) {
 	// ---- start
 	switch c.Start {
 	case "Execute", "Start":
-		p, err := subprocess.New(ctx, loggers, "", "", "", binPath, args...)
+		p, err := newSubprocess(ctx, c, loggers, binPath, args...)
 		if err != nil {
 			res.Engine = "subprocess.New: " + err.Error()
 			return
@@ -558,7 +588,7 @@ func runCell(c Cell) (res Result) {
 			if len(subs) >= 2 {
 				return nil, errors.New("c05: no third generation") // ends Run, never a spin of forks
 			}
-			p, err := subprocess.New(sctx, loggers, "", "", "", binPath, args...)
+			p, err := newSubprocess(sctx, c, loggers, binPath, args...)
 			if err == nil {
 				subs = append(subs, p)
 			}
@@ -774,7 +804,11 @@ func runCell(c Cell) (res Result) {
 }
 
 func signature(r Result) string {
-	return fmt.Sprintf("shape=%s|start=%s|stop=%s|instant=%s|failed=%s", r.Cell.Shape, r.Cell.Start, r.Cell.Stop, r.Class, strings.Join(r.Failed, "+"))
+	as := ""
+	if r.Cell.As != "" {
+		as = "|as=" + r.Cell.As
+	}
+	return fmt.Sprintf("shape=%s|start=%s|stop=%s|instant=%s%s|failed=%s", r.Cell.Shape, r.Cell.Start, r.Cell.Stop, r.Class, as, strings.Join(r.Failed, "+"))
 }
 
 // ---- the test ------------------------------------------------------------------------------------------
